@@ -23,7 +23,7 @@
  *                          proved invariant elsewhere; gej_set_ge: exact adapter)
  *        RP_STUB_XQUAD  RP_STUB_ISSQUARE  RP_STUB_ADD_GE  RP_STUB_ADD_VAR  RP_STUB_SHA  RP_STUB_PED_SMALL
  *        RP_STUB_PED  RP_STUB_BORRO_VERIFY  RP_STUB_BORRO_SIGN  RP_STUB_SET_GEJ  RP_STUB_ECMULT
- *        RP_STUB_GET_B32  RP_STUB_SCALAR_ALG  RP_STUB_MEMCPY  RP_STUB_MEMSET
+ *        RP_STUB_GET_B32  RP_STUB_SCALAR_ALG  RP_STUB_MEMCPY  RP_STUB_MEMSET  RP_STUB_CLEAR
  *
  * Ghost logs are WATCH style: the harness fixes a selector (g_*_watch call number, g_*_wp buffer
  * position, g_rp_k array index, g_rp_b byte index) that neither code nor stubs/contracts ever assign;
@@ -174,7 +174,7 @@ __CPROVER_ensures(__CPROVER_return_value == (be256(a) < P_()) && fval(r) == be25
  * ==================================================================================================== */
 #if defined(RP_STUB_READERS) || defined(RP_STUB_XQUAD) || defined(RP_STUB_ISSQUARE) || defined(RP_STUB_ADD_GE) || defined(RP_STUB_ADD_VAR) || \
     defined(RP_STUB_SHA) || defined(RP_STUB_PED_SMALL) || defined(RP_STUB_PED) || defined(RP_STUB_BORRO_VERIFY) || defined(RP_STUB_BORRO_SIGN) || \
-    defined(RP_STUB_SET_GEJ) || defined(RP_STUB_ECMULT) || defined(RP_STUB_GET_B32) || defined(RP_STUB_SCALAR_ALG) || defined(RP_STUB_MEMCPY) || defined(RP_STUB_MEMSET)
+    defined(RP_STUB_SET_GEJ) || defined(RP_STUB_ECMULT) || defined(RP_STUB_GET_B32) || defined(RP_STUB_SCALAR_ALG) || defined(RP_STUB_MEMCPY) || defined(RP_STUB_MEMSET) || defined(RP_STUB_CLEAR)
 /* the real definitions first */
 #include "src/field_impl.h"
 #include "src/scalar_impl.h"
@@ -537,6 +537,19 @@ static void rp_stub_scalar_inverse(secp256k1_scalar *r, const secp256k1_scalar *
 }
 #endif
 
+#ifdef RP_STUB_CLEAR     /* secret wiping (secp256k1_scalar_clear / secp256k1_memclear_explicit): "callers must not rely on" the zeroes
+                            (util.h), so the content afterwards is arbitrary; bounds stay an obligation.  CBMC's memset model costs
+                            ~300 SSA steps per 32-byte wipe and rewind_inner wipes 160 scalars. */
+static void rp_stub_scalar_clear(secp256k1_scalar *r) {
+    RP_PRE(__CPROVER_w_ok(r, sizeof(*r)), "scalar_clear destination writable");
+    *r = nondet_rp_scalar();
+}
+static void rp_stub_memclear_explicit(void *ptr, size_t len) {
+    RP_PRE(__CPROVER_w_ok(ptr, len), "memclear_explicit destination writable for len bytes");
+    __CPROVER_havoc_object(ptr);
+}
+#endif
+
 #ifdef RP_STUB_MEMSET    /* memset with content and frame over-approximated: arbitrary bytes in the whole destination object */
 static void *rp_stub_memset(void *dst, int c, size_t n) {
     (void)c;
@@ -607,6 +620,10 @@ static void *rp_stub_memcpy(void *dst, const void *src, size_t n) {
 #endif
 #ifdef RP_STUB_MEMSET
 # define memset rp_stub_memset
+#endif
+#ifdef RP_STUB_CLEAR
+# define secp256k1_scalar_clear rp_stub_scalar_clear
+# define secp256k1_memclear_explicit rp_stub_memclear_explicit
 #endif
 #endif /* any stub */
 #endif
